@@ -100,7 +100,15 @@ void harness(void) {
     carquet_writer_options_t wo; carquet_writer_options_init(&wo);
     wo.compression = CODEC; wo.page_size = 1;          /* every write_batch call ends its page */
     int rg[1] = { N }; pq_wstat_t ws;
+#ifdef PAGEPATTERN
+    /* pages of DIFFERENT sizes (one page per write_batch call): batch boundaries fall inside pages and batch sizes can equal
+       the size of a page that was already partly consumed */
+    static const int pat[] = { PAGEPATTERN };
+    pq_batch_pattern = pat; pq_batch_pattern_len = (int)(sizeof pat / sizeof pat[0]);
+    symx_assume(pq_write(PATH, &S, C, rg, 1, -1, &wo, &ws) == 0);
+#else
     symx_assume(pq_write(PATH, &S, C, rg, 1, BATCH, &wo, &ws) == 0);
+#endif
     filelen = symx_file_get(PATH, filebuf, sizeof filebuf);
     symx_assume(filelen != (size_t)-1);
     carquet_error_t err; memset(&err, 0, sizeof err);
